@@ -240,6 +240,9 @@ class IsoAbsCalG(AbsCalG):
             from pyoda_time import CalendarSystem
 
             eng.alias[id(CalendarSystem.iso)] = ac.system
+            from specs import iso_models
+
+            iso_models.install(eng, ac)
 
         ac.register = register
         return ac
@@ -248,3 +251,43 @@ class IsoAbsCalG(AbsCalG):
         ctx.setdefault("ordinal_override", {})[self.name] = 0
         ctx["iso_only"] = True
         return super().realize(v, ev, ctx)
+
+
+class OffsetTimeG(Gen):
+    """OffsetTime: nanosecond-of-day and offset seconds packed as n | (off << 47) (ghosts $n, $off)."""
+
+    def make(self, name, b):
+        from pyvc import sym
+        from pyvc.sym import And
+        from pyvc.values import SObj
+        from pyoda_time._offset_time import OffsetTime
+
+        n, off = sym.var_int(f"{name}.n"), sym.var_int(f"{name}.off")
+        b.assume(And(n >= 0, n < V.NPD, off >= -64800, off <= 64800))
+        return SObj(OffsetTime, {"_OffsetTime__nanoseconds_and_offset": n + off * (1 << 47), "$n": n, "$off": off}, owner=-1, tag=name)
+
+    def realize(self, v, ev, ctx):
+        from pyoda_time._offset_time import OffsetTime
+
+        o = OffsetTime._ctor(nanosecond_of_day=ev(v.fields["$n"]), offset_seconds=ev(v.fields["$off"]))
+        return o
+
+
+class OffsetDateTimeG(Gen):
+    def __init__(self, cal: str = "cal") -> None:
+        self.cal = cal
+
+    def make(self, name, b):
+        from pyvc.values import SObj
+        from pyoda_time._offset_date_time import OffsetDateTime
+
+        d = LocalDateG(self.cal).make(name + ".date", b)
+        t = OffsetTimeG().make(name + ".ot", b)
+        return SObj(OffsetDateTime, {"_OffsetDateTime__local_date": d, "_OffsetDateTime__offset_time": t}, owner=-1, tag=name)
+
+    def realize(self, v, ev, ctx):
+        from pyoda_time._offset_date_time import OffsetDateTime
+
+        d = LocalDateG(self.cal).realize(v.fields["_OffsetDateTime__local_date"], ev, ctx)
+        t = OffsetTimeG().realize(v.fields["_OffsetDateTime__offset_time"], ev, ctx)
+        return OffsetDateTime._ctor(local_date=d, offset_time=t)
